@@ -53,6 +53,16 @@ class VertexList:
 
         raise VertexNotFoundError(f"Vertex not found: {position}")
 
+    @staticmethod
+    def _reuse(vertex: Vertex, point: Point) -> Vertex:
+        """An existing vertex is used for another point at the same position:
+        it is projected to everything any of the points is projected to"""
+        for label in point.projected_to:
+            if label not in vertex.projected_to:
+                vertex.project(label)
+
+        return vertex
+
     def add(self, point: Point, slave_patches: Optional[List[str]] = None) -> Vertex:
         """Re-use existing vertices when there's already one at the position;
         unless that vertex belongs to a slave of a face-merged pair -
@@ -75,6 +85,8 @@ class VertexList:
                         # a point that belongs to a slave patch
                         # has been found but we need one for a 'master' patch
                         raise VertexNotFoundError
+
+                self._reuse(vertex, point)
             except VertexNotFoundError:
                 vertex = Vertex.from_point(point, len(self.vertices))
                 self.vertices.append(vertex)
@@ -83,7 +95,7 @@ class VertexList:
 
         # scenario 3: slave_patches is not None
         try:
-            vertex = self.find_duplicated(point.position, slave_patches)
+            vertex = self._reuse(self.find_duplicated(point.position, slave_patches), point)
         except VertexNotFoundError:
             vertex = Vertex.from_point(point, len(self.vertices))
             self.vertices.append(vertex)
